@@ -534,8 +534,10 @@ func mcCfg(mode, fam string, clients string, maxOps, maxStore int, gen string, s
 		mode, clients, fam, maxOps, maxStore, gen)
 }
 
-func simCfg(mode, fam string, maxOps int) string {
-	return fmt.Sprintf("CONSTANTS\n Mode = %q\n Clients = {\"c1\",\"c2\",\"c3\"}\n KeyPerms <- StdKeyPerms\n Home <- HomeMap\n NB = 1\n Surveyed = FALSE\n Fam = %q\n MaxOps = %d\n MaxStore = 6\n Gen = \"sim\"\n Small = FALSE\nINIT MCInit\nNEXT MCNext\nINVARIANTS TrieIsHeld NothingLeftBehind ClosedIsSilent DeliveriesJustified Dump\n",
+func simCfg(mode, fam string, maxOps int) string { return simCfgN(mode, fam, maxOps, 1) }
+
+func simCfgN(mode, fam string, maxOps, nb int) string {
+	return fmt.Sprintf("CONSTANTS\n Mode = %q\n Clients = {\"c1\",\"c2\",\"c3\"}\n KeyPerms <- StdKeyPerms\n Home <- HomeMap\n NB = "+fmt.Sprint(nb)+"\n Surveyed = FALSE\n Fam = %q\n MaxOps = %d\n MaxStore = 6\n Gen = \"sim\"\n Small = FALSE\nINIT MCInit\nNEXT MCNext\nINVARIANTS TrieIsHeld NothingLeftBehind ClosedIsSilent DeliveriesJustified Dump\n",
 		mode, fam, maxOps)
 }
 
@@ -552,8 +554,13 @@ func traceCfgN(mode string, nb int, surveyed bool) string {
 
 // Simulate asks TLC for random behaviours of a family.
 func Simulate(c *core.Ctx, mode, fam string, num, depth int, rng *rand.Rand) [][]json.RawMessage {
+	return SimulateN(c, mode, fam, num, depth, 1, rng)
+}
+
+// SimulateN: behaviours of clients spread over nb brokers.
+func SimulateN(c *core.Ctx, mode, fam string, num, depth, nb int, rng *rand.Rand) [][]json.RawMessage {
 	var lines []string
-	r, err := tlc.Run(tlc.Opts{SpecDir: core.SpecDir(), Module: "MC_Session", Cfg: simCfg(mode, fam, depth), Workers: 1,
+	r, err := tlc.Run(tlc.Opts{SpecDir: core.SpecDir(), Module: "MC_Session", Cfg: simCfgN(mode, fam, depth, nb), Workers: 1,
 		SimNum: num, SimDepth: depth + 1, Seed: c.Seed + int64(len(fam)), OnTag: func(tag, js string) {
 			if tag == "BEH" {
 				lines = append(lines, strings.TrimSuffix(strings.TrimSpace(js), "]"))
